@@ -146,6 +146,7 @@ func Load(o LoadOpts) (*Program, error) {
 	if !o.NoSSA {
 		prog, _ := ssautil.AllPackages(good, ssa.InstantiateGenerics)
 		prog.Build()
+		canonicalise(prog)
 		p.SSA = prog
 	}
 	return p, nil
